@@ -3,6 +3,9 @@ import PyamgV.Proofs.C03Witness
 import PyamgV.Proofs.SorAdjoint
 import PyamgV.Proofs.GsArrayRefine
 import PyamgV.Proofs.ExtC05RefineOp
+import PyamgV.Proofs.ExtSolvePathEx
+import PyamgV.Proofs.ExtSmoothersCycle
+import PyamgV.Proofs.ExtSmoothersRefine
 
 /-! # C03 — a cycle is the textbook multigrid recursion: fixed, linear and consistent
 
@@ -118,5 +121,88 @@ open PyamgV.C03 PyamgV.C03.Witness in
 example (b x0 : Vec) : iterN (fun x => solveM S4 .W 1 [L0, L1, L2] (fun _ => true) 1 b x) 3 x0 =
     solveM S4 .W 1 [L0, L1, L2] (fun _ => false) 3 b x0 :=
   solveM_k_calls S4 .W 1 [L0, L1, L2] (fun _ => false) (fun _ => true) b x0 2 (fun _ _ _ => rfl)
+
+/-! ## polynomial / Chebyshev, Richardson, (block) Jacobi and NE/NR smoothers are linear iterations (extension E22)
+
+So far these entered the check as probed matrices only; Proofs/ExtSmoothers*.lean gives their operators explicitly. -/
+
+/-- (E22) a list of linear iterations applied one after the other is a linear iteration (operator: `compM`-fold) -/
+restate linear_iterations_compose_list := PyamgV.IsLinIter.foldl
+restate linear_iteration_fixed_point := PyamgV.IsLinIter.fixed_point
+restate linear_iteration_error_propagation := PyamgV.IsLinIter.error
+/-- (E22) `relaxation.polynomial(coefficients = c0 :: cs)` (Chebyshev, Richardson), the `norm(x) == 0` shortcut
+included, is `x + p(A)(b − A x)`; `p(A) = Σ_k coefficients[k] A^(deg−k)` -/
+restate polynomial_is_linear_iteration := PyamgV.polynomial_isLinIter
+restate polynomial_iterations_is_linear_iteration := PyamgV.polynomial_iter_isLinIter
+restate polynomial_operator_is_polynomial := PyamgV.polyOp_eq_sum
+restate polynomial_fixed_point := PyamgV.polynomial_fixed_point
+/-- (E22) Richardson = polynomial of degree 0, `Q = ω I` -/
+restate richardson_is_polynomial := PyamgV.richardson_is_polynomial
+restate richardson_is_linear_iteration := PyamgV.richardson_isLinIter
+/-- (E22) weighted Jacobi / block Jacobi, `Q = ω D⁻¹`; the kernel's formula `(1−ω) x + ω Dinv (b − N x)` -/
+restate jacobi_is_linear_iteration := PyamgV.jacobi_isLinIter
+restate block_jacobi_is_linear_iteration := PyamgV.blockJacobi_isLinIter
+/-- (E22) one full Kaczmarz (`gauss_seidel_ne`) sweep over any row list is `x + Q (b − A x)`, `Q` the `compM`-product
+of the rank-one row operators `ω Dinv[i] a_i (·)_i` -/
+restate kaczmarz_row_is_linear_iteration := PyamgV.ne_row_isLinIter
+restate kaczmarz_sweep_is_linear_iteration := PyamgV.ne_sweep_isLinIter
+restate kaczmarz_sweep_fixed_point := PyamgV.ne_sweep_fixed_point
+/-- (E22) one full `gauss_seidel_nr` sweep (the loop on the pair `(x, r)`, `r = b − A x` on entry) over any column list -/
+restate nr_sweep_is_linear_iteration := PyamgV.nr_sweep_isLinIter
+restate nr_sweep_fixed_point := PyamgV.nr_sweep_fixed_point
+restate nr_loop_keeps_residual := PyamgV.nrLoop_eq
+restate jacobi_ne_is_linear_iteration := PyamgV.jacobi_ne_isLinIter
+/-- (E22) the family (closed under composition and `iterations = k`) satisfies the `IsLinIter` hypothesis -/
+restate smoother_family_is_linear_iteration := PyamgV.LinSmoother.isLinIter
+/-- (E22) **a cycle whose smoothers belong to the family is the linear iteration with the textbook operator `MopL`**,
+no Galerkin condition, and the exact solution is its fixed point -/
+restate cycle_is_linear_iteration_of_smoother_family := PyamgV.cycle_isLinIter_of_smoother_family
+restate cycle_fixed_point_of_smoother_family := PyamgV.cycle_fixed_point_of_smoother_family
+/-- (E22) the executable array model of `relaxation.polynomial` (driver op `ext_poly`) is that linear iteration -/
+restate polynomial_model_is_linear_iteration := PyamgV.polynomial_array_isLinIter
+restate polynomial_model_fixed_point := PyamgV.polynomial_array_fixed_point
+
+/-! ## the solve path: C08's plan, C01's loop and this cycle model composed (extension E17, Proofs/ExtSolvePath.lean)
+
+`SolvePath.solvePyM` = C01's statement-by-statement `solvePy` (all caller-visible options) with `cycM` as the cycle
+(one-level branch: the coarse solver applied to `b`); `SolvePath.callPrecond` = the `M` of an accelerator call of
+`C08.plan` (`aspreconditioner(cycle)` run through `solvePy` with `maxiter = 1`, no `x0`) applied to a vector.  The
+driver runs both (`ext_e17_solve`, `ext_e17_precond`) against the real `solve` on the hierarchies of this check. -/
+
+/-- (E17) the vector C01's loop returns on this cycle model is what this property's own loop model `solveM` returns
+with the residual test `below ∘ resnorm`: the two loop models of `solve` agree, for every combination of options -/
+restate python_loop_on_cycle_is_solveM := PyamgV.SolvePath.solvePyM_x
+/-- (E17) … and it is the bookkeeping loop `PyamgV.solve` on `stepM` seen through the options -/
+restate python_loop_on_cycle_is_bookkeeping_loop := PyamgV.SolvePath.solvePyM_eq
+/-- (E17) `aspreconditioner(cycle).matvec` run through C01's model of `solve` is `precM` -/
+restate python_preconditioner_is_precM := PyamgV.SolvePath.precPy_eq_precM
+/-- (E17) the preconditioner the accelerated branch (C08's plan) hands to the Krylov method, for the upper-cased
+cycle string `V`/`W`/`F`, applied to `v`, is `M v` with `M = mopM c 1` of the requested cycle type -/
+restate accelerated_solve_preconditioner_is_M := PyamgV.SolvePath.plan_precond_is_M
+/-- (E17) error propagation of the stand-alone solve: the returned vector after `k` cycles and the `j`-th callback
+argument have errors `(I − M A)^k e₀`, `(I − M A)^(j+1) e₀`; `k`, `info` and the stopping rule as in C01 -/
+restate standalone_solve_error_propagation := PyamgV.SolvePath.solvePyM_error_propagation
+/-- (E17) `k_cycles_error_propagation` with the propagator as a linear map, `e_k = (I − M A)^k e_0` -/
+restate k_cycles_error_propagation_pow := PyamgV.SolvePath.cycM_iter_error_pow
+/-- (E17) under C02's hypotheses (`WFG`) one cycle of this model does not increase the energy norm of the error … -/
+restate cycle_model_nonexpansive := PyamgV.SolvePath.cycM_nonexp
+/-- (E17) … hence the error energies of the iterates of the stand-alone solve (returned vector, callback arguments)
+are non-increasing -/
+restate standalone_solve_energy_monotone := PyamgV.SolvePath.solvePyM_energy_monotone
+/-- (E17) non-vacuity: a concrete two-level hierarchy of this model (damped Jacobi, `R = Pᵀ`, exact Galerkin coarse
+solve) satisfies C02's hypotheses -/
+restate example_hierarchy_wfg := PyamgV.SolvePath.Ex.wfg
+restate example_standalone_solve_energy := PyamgV.SolvePath.Ex.example_solve_energy
+/-- (E17) concrete runs of the composed definitions, evaluated by the kernel -/
+restate example_standalone_solve_run := PyamgV.SolvePath.Ex.example_run
+restate example_accelerated_preconditioner := PyamgV.SolvePath.Ex.example_precond
+
+/-! non-vacuity (E22): a level on `ℚ²`, `A = [[2,−1],[−1,2]]`, with a degree-1 polynomial pre-smoother and a Kaczmarz
+post-sweep is in the family -/
+open PyamgV PyamgV.ExSm in
+example : WFLS [({ A := A2, P := LinearMap.id, R := LinearMap.id,
+                   pre := polyFn A2 (-1/5) [1], post := neSweepFn e2 (3/2) rows2,
+                   Qpre := polyOp A2 (-1/5) [1], Qpost := sweepM A2 (rows2.map (neRowOp (3/2))) } : LinLevel ℚ (ℚ × ℚ))] :=
+  ⟨LinSmoother.polynomial _ _, LinSmoother.neSweep e2 _ rows2 (fun r hr => (rows2_ok r hr).1), trivial⟩
 
 end PyamgV.Props.C03
